@@ -100,12 +100,15 @@ def _try_to_reorder(
         len_after = len(bdd)
         # try again,
         # reordering disabled to avoid livelock
-        with _ReorderingContext(bdd):
-            r = func(
-                bdd,
-                *args, **kwargs)
-        # enable reordering requests
-        bdd._last_len = GROWTH_FACTOR * len_after
+        try:
+            with _ReorderingContext(bdd):
+                r = func(
+                    bdd,
+                    *args, **kwargs)
+        finally:
+            # enable reordering requests
+            # (also when `func` raises)
+            bdd._last_len = GROWTH_FACTOR * len_after
         return r
     return _wrapper
 
